@@ -852,6 +852,18 @@ func c11Exec(scAny any, c *simcheck.Ctx) *simcheck.Violation {
 				return simcheck.V("get-missing", "%s: the build list {%s} does not contain %s", what, mapString(newBL), qpath)
 			}
 			upgrade := !had || semver.Compare(nv, ov) >= 0
+			// A request below the version currently selected is a downgrade request whatever
+			// the outcome looks like: the project must end at or below what was asked for.
+			if had {
+				switch {
+				case semver.IsValid(query) && semver.Canonical(query) == query && semver.Compare(query, ov) < 0:
+					upgrade = false
+				case strings.HasPrefix(query, "<=") && semver.Compare(ov, query[2:]) > 0:
+					upgrade = false
+				case strings.HasPrefix(query, "<") && !strings.HasPrefix(query, "<=") && semver.Compare(ov, query[1:]) >= 0:
+					upgrade = false
+				}
+			}
 			pred := func(v string) (bool, string) {
 				switch {
 				case query == "" || query == "latest" || query == "upgrade" || query == "patch":
@@ -891,8 +903,12 @@ func c11Exec(scAny any, c *simcheck.Ctx) *simcheck.Violation {
 					if semver.Compare(nv, query) > 0 {
 						return simcheck.V("downgrade-above-request", "%s: %s is at %s, above the requested %s", what, qpath, nv, query)
 					}
-				case query != "" && query[0] == '<':
-					bound := strings.TrimPrefix(strings.TrimPrefix(query, "<"), "=")
+				case strings.HasPrefix(query, "<") && !strings.HasPrefix(query, "<="):
+					if semver.Compare(nv, query[1:]) >= 0 {
+						return simcheck.V("downgrade-above-request", "%s: %s is at %s, not below the requested bound %s", what, qpath, nv, query)
+					}
+				case strings.HasPrefix(query, "<="):
+					bound := query[2:]
 					if semver.Compare(nv, bound) > 0 {
 						return simcheck.V("downgrade-above-request", "%s: %s is at %s, above the requested bound %s", what, qpath, nv, query)
 					}
